@@ -1419,6 +1419,16 @@ def assemble(g: Gen, draw, force_outputs=()):
         if v not in outs:
             outs.append(v)
             g.features.add("intermediate_as_output")
+    if g.cfg.get("initializer_outputs", True) and draw(st.integers(0, 7)) == 0:
+        # an initializer that a node reads is ALSO a graph output (legal ONNX; exporters produce it for tied / returned weights): a
+        # transformation that replaces or renames "an initializer that only the matched nodes read" must still see this use
+        iv = [v for v in g.env if v.kind == "const" and isinstance(v.arr, np.ndarray) and v.name in used and v.name in {i.name for i in g.inits}
+              and v.name not in g.overridable]
+        if iv:
+            v = draw(st.sampled_from(iv))
+            if v not in outs:
+                outs.append(v)
+                g.features.add("initializer_as_graph_output")
     declare_shapes = g.cfg.get("declare_shapes", "static")
     inputs_vi = []
     specs = []
